@@ -614,6 +614,11 @@ class Engine(ExprMixin, CallMixin, StmtMixin):
         res = self.fresh_val(c.result, 'r_' + c.qual.split('.')[-1].strip('_'), sn) if c.result != 'none' else VNone
         ctx_n = Ctx(self, sn, dict(binding, result=res), old=pre, old_names=binding, module=mod)
         for cl in c.ensures:
+            if cl.carve:        # a clause with an open finding is only available under the finding's hypothesis
+                hz = self.goal_of(self.spec.clause(cl.carve[1], ctx_n))
+                gz = self.goal_of(self.spec.clause(cl.text, ctx_n))
+                sn.assume(Implies(hz, gz))
+                continue
             self.assume_clause(sn, self.spec.clause(cl.text, ctx_n))
         for h in c.hooks + self.reg.post_hooks:
             h(self, sn, dict(binding, result=res), pre)
